@@ -318,3 +318,108 @@ func runHostile(s *Session) string {
 		return "hostile-gateway"
 	}
 }
+
+// ---- C11 for protocol objects: every rhp v2/v3/v4 and gateway object filled
+// from the tape is decoded from its own encoding (equal re-encoding) and from
+// every sampled proper prefix of it, which must fail.
+
+func runCodec(s *Session) string {
+	t := s.t
+	defer close(s.ea.done)
+	defer close(s.eb.done)
+	e := s.ea
+	type codec struct {
+		name  string
+		enc   []byte
+		fresh func() any
+		dec   func(o any, b []byte) error
+		again func(o any) []byte
+	}
+	var c codec
+	decP := func(o any, b []byte) error {
+		d := types.NewBufDecoder(b)
+		o.(pobj).DecodeFrom(d)
+		return d.Err()
+	}
+	switch v := pick(t, 2, 3, 4, 5); v {
+	case 2, 3:
+		tbl := rpcs2
+		if v == 3 {
+			tbl = rpcs3
+		}
+		r := tbl[t.Choose(len(tbl))]
+		mk := r.resp
+		if r.req != nil && t.Chance(1, 2) {
+			mk = r.req
+		}
+		o := mk()
+		fillObject(t, o, 0, 1)
+		fixup(o)
+		c = codec{fmt.Sprintf("rhp/v%d %T", v, o), encP(o), func() any { return mk() }, decP, func(o any) []byte { fixup(o); return encP(o.(pobj)) }}
+	case 4:
+		r := rpcs4[t.Choose(len(rpcs4))]
+		mk := r.resp
+		if t.Chance(1, 2) {
+			mk = r.req
+		}
+		o := mk()
+		fillObject(t, o, 0, 1)
+		c = codec{fmt.Sprintf("rhp/v4 %T", o), enc4(o), func() any { return mk() }, func(o any, b []byte) error {
+			d := types.NewBufDecoder(b)
+			rhp4.VerifDecode(d, o.(obj4))
+			return d.Err()
+		}, func(o any) []byte { return enc4(o.(obj4)) }}
+	default:
+		exs := buildGateway(t)
+		ex := exs[t.Choose(len(exs))]
+		if t.Chance(1, 2) {
+			c = codec{fmt.Sprintf("gateway %T request", ex.obj), gwReqBytes(ex.obj), func() any { return freshLike(ex.obj) }, func(o any, b []byte) error {
+				d := types.NewBufDecoder(b)
+				gateway.VerifDecodeRequest(d, o.(gateway.Object))
+				return d.Err()
+			}, func(o any) []byte { return gwReqBytes(o.(gateway.Object)) }}
+		} else {
+			c = codec{fmt.Sprintf("gateway %T response", ex.resp), gwRespBytes(ex.resp), func() any { return freshLike(ex.resp) }, func(o any, b []byte) error {
+				d := types.NewBufDecoder(b)
+				gateway.VerifDecodeResponse(d, o.(gateway.Object))
+				return d.Err()
+			}, func(o any) []byte { return gwRespBytes(o.(gateway.Object)) }}
+		}
+	}
+	e.inc("codec.objects")
+	got := c.fresh()
+	var err error
+	if p := guardPanic(func() { err = c.dec(got, c.enc) }); p != "" {
+		e.violate("C10", "rpc-decode-panic", fmt.Sprintf("decoding %s from its own encoding panicked: %s", c.name, p))
+		return "codec"
+	}
+	if err != nil {
+		e.violate("C11", "rpc-roundtrip-decode", fmt.Sprintf("%s (%d bytes) does not decode from its own encoding: %v", c.name, len(c.enc), err))
+		return "codec"
+	}
+	if re := c.again(got); string(re) != string(c.enc) {
+		e.violate("C11", "rpc-roundtrip-differs", fmt.Sprintf("%s: re-encoding the decoded value gives different bytes (%d vs %d)", c.name, len(re), len(c.enc)))
+		return "codec"
+	}
+	if len(c.enc) == 0 {
+		return "codec"
+	}
+	cuts := []int{0, len(c.enc) - 1, len(c.enc) / 2}
+	for i := 0; i < 5; i++ {
+		cuts = append(cuts, t.Choose(len(c.enc)))
+	}
+	for _, n := range cuts {
+		g := c.fresh()
+		var err error
+		if p := guardPanic(func() { err = c.dec(g, c.enc[:n]) }); p != "" {
+			e.violate("C10", "rpc-decode-panic", fmt.Sprintf("decoding %s from the first %d of %d bytes panicked: %s", c.name, n, len(c.enc), p))
+			return "codec"
+		}
+		e.inc("codec.prefixes")
+		if err == nil {
+			e.violate("C11", "rpc-prefix-accepted", fmt.Sprintf("%s: the first %d of %d bytes of its encoding decoded without error", c.name, n, len(c.enc)))
+			return "codec"
+		}
+	}
+	return "codec"
+}
